@@ -78,7 +78,7 @@ def main():
         engines=[dict(name="harness", path="/verif/harness", serves_properties=sorted(P),
                       kind_free_text="Go module: reference model + op language + driver + monitors (eng), generated typed wrappers (typed), workers (cmd/*); python orchestrator (tools/orch.py)")],
         checks=checks,
-        notes="All 20 properties are claimed at level 'exploration' (runtime monitoring). 35 genuine defects (F1-F35) were found and repaired by 'fix:' commits in /repo; one (K1, C17) is recorded as a known finding (KNOWN_FINDINGS.txt, DESIGN.md section 5). 240 seeded changes are kept under seeded/ with the check that detects each (DESIGN.md section 7).",
+        notes="All 20 properties are claimed at level 'exploration' (runtime monitoring). 35 genuine defects (F1-F35) were found and repaired by 'fix:' commits in /repo; one (K1, C17) is recorded as a known finding (KNOWN_FINDINGS.txt, DESIGN.md section 5). 280 seeded changes from 14 rounds of fresh sub-agents are kept under seeded/ with the check that detects each; 277 are detected at the quick tier, one at the thorough tier only, one not, one was neutralised by a repair (DESIGN.md section 7).",
         not_applicable=[],
     )
     json.dump(m, open(os.path.join(VERIF, "MANIFEST.json"), "w"), indent=1)
